@@ -240,6 +240,9 @@ impl<T> ScopedJoinHandle<'_, T> {
     /// This might return `true` for a brief moment after the thread's main
     /// function has returned, but before the thread itself has stopped running.
     pub fn is_finished(&self) -> bool {
+        // Observing another thread's state is a visible operation, so it needs a scheduling point
+        thread::switch();
+
         self.finished.load(Ordering::Relaxed)
     }
 }
